@@ -117,6 +117,9 @@ func H_C07_cancel() {
 			vassert(false, "a silent program produced an output")
 			break
 		}
+		if i >= len(want) && !refEnded {
+			break // the output bound of the uncancelled reference run is reached: nothing left to compare with
+		}
 		vassert(i < len(want), "no extra output before the cancellation")
 		if i < len(want) {
 			_, e1 := v.(error)
